@@ -381,7 +381,9 @@ pub(crate) trait StylesheetParser<'a>: BaseParser + Sized {
         self.whitespace()?;
 
         let args = if self.toks_mut().next_char_is('(') {
-            self.parse_argument_invocation(true, false)?
+            let args = self.parse_argument_invocation(true, false)?;
+            self.whitespace()?;
+            args
         } else {
             ArgumentInvocation::empty(self.toks().current_span())
         };
